@@ -80,3 +80,12 @@ Theorem C04_monitor_holds_of_model :
   forall c, spcase_agree c = true -> c04_spec c = true.
 Proof. intros c H. destruct (monitors_hold_of_model c H) as [_ [_ [_ [M _]]]]; exact M. Qed.
 Print Assumptions C04_monitor_holds_of_model.
+
+(* non-vacuity: the hypotheses of the theorems above are met by a concrete signed response with
+   two subject confirmations (one in a zoned lexical form) that the model accepts, and the
+   rejecting direction by the same response one minute later / for another outstanding id *)
+Example C04_nonvacuous :
+  (exists a, parse_xml_response ex_cfg ["id-0"; "id-1"] ex_now "https://sp/acs" (DRoot (ex_signed 0 (KICert 0))) = Ok a) /\
+  (exists code, parse_xml_response ex_cfg ["id-1"] (ex_now + 60000000000) "https://sp/acs" (DRoot (ex_signed 0 (KICert 0))) = Err code) /\
+  (exists code, parse_xml_response ex_cfg ["id-2"] ex_now "https://sp/acs" (DRoot (ex_signed 0 (KICert 0))) = Err code).
+Proof. repeat split; eexists; vm_compute; reflexivity. Qed.
